@@ -21,6 +21,57 @@ theorem stripWs_strip (s : Cps) : stripWs (strip s) = stripWs s := by
   unfold strip
   rw [stripWs_reverse, stripWs_dropWhile, stripWs_reverse, stripWs_dropWhile, List.reverse_reverse]
 
+theorem mem_takeWhile_true {α : Type} (f : α → Bool) : ∀ (l : List α) (a : α), a ∈ l.takeWhile f → f a = true
+  | [], _, h => by simp at h
+  | x :: t, a, h => by
+    simp only [List.takeWhile_cons] at h
+    split at h
+    · rename_i hx
+      rcases List.mem_cons.mp h with rfl | h'
+      · exact hx
+      · exact mem_takeWhile_true f t a h'
+    · simp at h
+
+theorem drop_length_append {α : Type} : ∀ (A B : List α), (A ++ B).drop A.length = B
+  | [], _ => rfl
+  | _ :: t, B => by simpa using drop_length_append t B
+
+theorem rstrip_split (s : Cps) : s = rstrip s ++ (s.reverse.takeWhile isWs).reverse := by
+  unfold rstrip
+  rw [← List.reverse_append, List.takeWhile_append_dropWhile, List.reverse_reverse]
+
+theorem allWs_takeWhile (s : Cps) : allWs (s.takeWhile isWs) = true := by
+  unfold allWs
+  rw [List.all_eq_true]
+  intro a ha
+  exact mem_takeWhile_true isWs s a ha
+
+theorem stripWs_rstrip (s : Cps) : stripWs (rstrip s) = stripWs s := by
+  unfold rstrip
+  rw [stripWs_reverse, stripWs_dropWhile, stripWs_reverse, List.reverse_reverse]
+
+theorem stripWs_stripKeepEsc (s : Cps) : stripWs (stripKeepEsc s) = stripWs s := by
+  unfold stripKeepEsc
+  simp only
+  split
+  · rw [stripWs_append, stripWs_rstrip]
+    have hs := rstrip_split (lstrip s)
+    have hd : (lstrip s).drop (rstrip (lstrip s)).length = ((lstrip s).reverse.takeWhile isWs).reverse := by
+      have := drop_length_append (rstrip (lstrip s)) ((lstrip s).reverse.takeWhile isWs).reverse
+      rw [← hs] at this
+      exact this
+    rw [hd]
+    have hw : allWs (((lstrip s).reverse.takeWhile isWs).reverse.take 1) = true := by
+      unfold allWs
+      rw [List.all_eq_true]
+      intro a ha
+      have ha' := List.mem_of_mem_take ha
+      rw [List.mem_reverse] at ha'
+      exact mem_takeWhile_true isWs _ a ha'
+    rw [stripWs_of_allWs hw, List.append_nil]
+    unfold lstrip; exact stripWs_dropWhile s
+  · rw [stripWs_rstrip]; unfold lstrip; exact stripWs_dropWhile s
+
 /-- the text of an `@import` media list is tested for emptiness and for being `all` -/
 def MediaStable (t : Cps) : Prop := Solid t ∧ (stripWs t = s_all → t = s_all)
 
@@ -204,7 +255,7 @@ theorem doVarDecl_layout (lv : Nat) (vars : List VItem) (ok : ∀ v ∈ vars, VI
   unfold doVarDecl
   split
   · rfl
-  · rw [stripWs_strip, stripWs_strip]
+  · rw [stripWs_stripKeepEsc, stripWs_stripKeepEsc]
     exact calls_layout hp hq h (varDeclCalls_rel hp hq h lv vars ok)
 
 /-- `match atKeyword … with | .error e => .error e | .ok k => pure (f k)` under both records -/
